@@ -1,6 +1,7 @@
-(* C19, part 8: finding C19-periodic-loader as a lemma about the model of WorkloadLoader:
-   a document with `release_policy: periodic`, loaded with a flags object, is not instantiated
-   (AttributeError, code 4): the horizon handed to generate_task_graphs is the int flag loop_timeout. *)
+(* C19, part 8: the former finding C19-periodic-loader (fixed in /repo 3effb4b) as lemmas about the model of
+   WorkloadLoader: had the loader handed the bare int flag loop_timeout to generate_task_graphs (as it did), a
+   document with `release_policy: periodic` would not be instantiated (AttributeError, code 4); with
+   EventTime(loop_timeout) it is instantiated as declared. *)
 From Coq Require Import ZArith Bool List Lia.
 Import ListNotations.
 From Verif Require Import Model.Val Gen.Src_Time Model.Release.
@@ -10,22 +11,22 @@ Definition periodic_doc : load_case :=
   mkLC (Some [mkDP (Some 0) None (Some [mkDS (Some [(0, 0, 1)]) (Some 1) (Some 100)])])
        (Some [mkDG (Some 0) (Some [mkDN 0 (Some 0) None false None false None]) (Some 0)
                    (Some 5) (Some 300) None None None None None])
-       (Some (mkRF (mkF 0 0) (mkF 0 0) 0 0 false 1 (-1) 0 (2 ^ 63 - 1))) [] [] [].
+       (Some (mkRF (mkF 0 0) (mkF 0 0) 0 0 false 1 (-1) 0 (2 ^ 63 - 1) 1000)) [] [] [].
 
-Lemma loader_periodic_refuted :
-  exists c ls, load_workload (lc_profiles c) (lc_graphs c) (lc_flags c) = Ok ls /\
+Lemma loader_periodic_int_horizon_refused :
+  exists ls, load_workload (lc_profiles periodic_doc) (lc_graphs periodic_doc) (lc_flags periodic_doc) = Ok ls /\
     (exists l, In l ls /\ p_type (jg_policy (l_jg l)) = PERIODIC) /\
-    forall us_, populate ls (mkIF (df_minb (lc_flags c)) (df_maxb (lc_flags c)) (0, 0)) (lc_completion c) [] [] us_ 0 = Err 4.
+    forall us_, populate ls (mkIF 0 (2 ^ 63 - 1) (0, 0)) None [] [] us_ 0 = Err 4.
 Proof.
-  exists periodic_doc. eexists. split; [vm_compute; reflexivity|]. split.
+  eexists. split; [vm_compute; reflexivity|]. split.
   - eexists. split; [left; reflexivity|reflexivity].
   - intros us_. reflexivity.
 Qed.
 
-(* the same document with the horizon the loader SHOULD pass (EventTime(1000 us)) is instantiated as declared *)
-Example loader_periodic_intended :
+(* as loaded today: releases at 5, 305, 605, 905 for --loop_timeout=1000 *)
+Lemma loader_periodic_instantiated :
   exists ls tgs, load_workload (lc_profiles periodic_doc) (lc_graphs periodic_doc) (lc_flags periodic_doc) = Ok ls /\
-    populate ls (mkIF 0 (2 ^ 63 - 1) (0, 0)) (Some (us_time 1000)) [] []
+    populate ls (mkIF 0 (2 ^ 63 - 1) (0, 0)) (lc_completion periodic_doc) [] []
              [mkF 0 0; mkF 0 0; mkF 0 0; mkF 0 0; mkF 0 0; mkF 0 0; mkF 0 0; mkF 0 0] 0 = Ok tgs /\
     map (fun x => map (fun tg => map (fun t => et_time (t_release t)) (tg_tasks tg)) (snd x)) tgs = [[[5]; [305]; [605]; [905]]].
 Proof. eexists. eexists. split; [vm_compute; reflexivity|]. split; [vm_compute; reflexivity|]. reflexivity. Qed.
